@@ -323,7 +323,9 @@ def class_features(cl, ver: str, mode: str, den, obs, pinned) -> dict:
     f['esc_ic'] = bool(escs & {'i', 'c'})
     groups = [cl] + list(cl['sub'])
     # an escape written directly after an escaped hyphen; a range whose start is written as an escape (\n-x)
-    f['esc_after_hyphen'] = any(a['k'] == 'c' and a['c'] == 3 and b['k'] == 'e'
+    def escaped(it):     # rendered with a leading backslash
+        return it['k'] == 'e' or (it['k'] == 'c' and it['c'] in (1, 3)) or (it['k'] == 'r' and it['lo'] in (1, 3))
+    f['esc_after_hyphen'] = any(a['k'] == 'c' and a['c'] == 3 and escaped(b)
                                 for g in groups for a, b in zip(g['items'], g['items'][1:]))
     f['esc_range_start'] = any(it['k'] == 'r' and it['lo'] == 1 for g in groups for it in g['items'])
     if isinstance(obs, tuple):
